@@ -24,6 +24,20 @@ let () =
       (match (try Some (read_file path) with _ -> None) with
        | None -> print_endline "NOFILE"
        | Some txt ->
+         if kind = "b64" then begin
+           (* lines "<targsize> <text>": hwloc_decode_from_base64(text, block of targsize bytes, targsize) *)
+           Stdlib.List.iter (fun l ->
+             match Stdlib.String.index_opt l ' ' with
+             | None -> ()
+             | Some i ->
+               let t = int_of_string (Stdlib.String.sub l 0 i) and text = Stdlib.String.sub l (i + 1) (Stdlib.String.length l - i - 1) in
+               let src = Stdlib.List.init (Stdlib.String.length text) (fun i -> nbyte.(Stdlib.Char.code text.[i])) in
+               (match decode_mem src (n_of_int t) with
+                | Oob -> print_endline "B OOB"
+                | Ok None -> print_endline "B -1"
+                | Ok (Some (n, out)) -> Printf.printf "B %d %s\n" (int_of_n n) (hex (Stdlib.List.filteri (fun i _ -> i < int_of_n n) out))))
+             (Stdlib.String.split_on_char '\n' txt)
+         end else
          let s = bytes_of txt in
          (match (if kind = "topo" then walk_topology s else walk_diff s) with
           | Ok evs -> Stdlib.List.iter print_event evs
